@@ -362,6 +362,9 @@ def match_ops(prog: Program) -> RuleResult:
         eq_like = any(a[0] in ("ord", "in", "is", "eq") and "operation" in str(a[1:]) and v in (0, True) for a, v in val.items())
         if not (it_l and it_r and all(it_l) and all(it_r) and eq_like):
             continue
+        # a mapping is no collection of values: its set would be its keys only, it is compared as a mapping
+        if any(a[0] == "isinstance" and "Mapping" in str(a[2]) and v for a, v in val.items()):
+            continue
         n_coll += 1
         for c_ in calls_:
             if getattr(c_, "fn", "") == f"{ap.params[0]}.operation" and len(c_.args) == 2:
@@ -522,6 +525,13 @@ def match_kind(prog: Program) -> RuleResult:
     return r
 
 
+def _hv_truth(prog):
+    # a solution / binding / argument whose value is falsy is a value like any other: bound values are asked for presence, not for truth
+    from .hvtruth import hv_truth
+
+    return hv_truth(prog)
+
+
 def run(prog: Program, tier: str) -> List[RuleResult]:
     from .c03 import domain_cache
 
@@ -531,4 +541,4 @@ def run(prog: Program, tier: str) -> List[RuleResult]:
     # match_any compiles to the existential quantifier: one answer per binding of the free variables
     return [match_table(prog), match_kind(prog), match_iter(prog), match_factory(prog), match_memo_order(prog), match_ops(prog), ident_dedup(prog), domain_cache(prog), ep_quant(prog),
             # selected inner parts are evaluated under the bindings of the matched element: the row threading of C01
-            ep_thread(prog)]
+            ep_thread(prog), _hv_truth(prog)]
